@@ -176,15 +176,36 @@ pub fn run(p: &Params) -> Report {
         let real = reward_real(speed, prev_speed, stated, tip910);
         let nominal = dosc_to_erg(apply_h, &real);
         let nominal_u = crate::model::big_to_u128_sat(&nominal);
-        let erg_choice = r.below(5);
+        let erg_choice = r.below(6);
+        let copies = 2 + r.below(9) as u128;
         let erg: u128 = match erg_choice {
             0 => nominal_u.saturating_add(1),
             1 => nominal_u,
             2 => nominal_u.saturating_sub(1),
             3 => 0,
-            _ => nominal_u / 2,
+            4 => nominal_u / 2,
+            // several ERG outputs, each exactly the reward
+            _ => nominal_u.saturating_mul(copies),
         }
         .min(MAX_COINVAL);
+        // the ERG is spread over 1-10 outputs: the bound is on their sum
+        let erg_parts: Vec<u128> = if erg_choice == 5 && nominal_u > 0 && nominal_u.saturating_mul(copies) <= MAX_COINVAL {
+            (0..copies).map(|_| nominal_u).collect()
+        } else if erg >= 2 && r.chance(2, 5) {
+            let k = (1 + r.below(4)).min((erg - 1) as u64) as usize;
+            let mut left = erg;
+            let mut parts = vec![];
+            for _ in 0..k {
+                let take = if left > 1 { 1 + (r.u128() % (left - 1)) } else { 0 };
+                parts.push(take);
+                left -= take;
+            }
+            parts.push(left);
+            parts
+        } else {
+            vec![erg]
+        };
+        debug_assert_eq!(erg_parts.iter().sum::<u128>(), erg);
         let data: Vec<u8> = if corruption == 6 { r.bytes(r.clone().usize(60)) } else { stdcode::serialize(&(stated, proof_bytes.clone())).unwrap() };
         if corruption == 6 {
             label = "garbage-data".into();
@@ -193,10 +214,9 @@ pub fn run(p: &Params) -> Report {
         let mut tx = Transaction {
             kind: TxKind::DoscMint,
             inputs: vec![coin_id],
-            outputs: vec![
-                CoinData { covhash: dest, value: CoinValue(coin_val), denom: Denom::Mel, additional_data: Bytes::new() },
-                CoinData { covhash: dest, value: CoinValue(erg), denom: Denom::Erg, additional_data: Bytes::new() },
-            ],
+            outputs: std::iter::once(CoinData { covhash: dest, value: CoinValue(coin_val), denom: Denom::Mel, additional_data: Bytes::new() })
+                .chain(erg_parts.iter().map(|e| CoinData { covhash: dest, value: CoinValue(*e), denom: Denom::Erg, additional_data: Bytes::new() }))
+                .collect(),
             fee: CoinValue(0),
             covenants: vec![Bytes::from(cov.clone())],
             data: Bytes::from(data),
@@ -204,6 +224,9 @@ pub fn run(p: &Params) -> Report {
         };
         if erg == 0 && r.chance(1, 2) {
             tx.outputs.pop();
+        }
+        if erg_parts.len() > 1 {
+            rep.count("mints with the ERG spread over several outputs");
         }
         tx.sigs = vec![Bytes::from(key.sk.sign(&tx.hash_nosigs().0 .0))];
         // ---- reference verdict
@@ -269,8 +292,10 @@ pub fn run(p: &Params) -> Report {
             1 => "erg=reward",
             2 => "erg=reward-1",
             3 => "erg=0",
-            _ => "erg=reward/2",
+            4 => "erg=reward/2",
+            _ => "erg=several-outputs-of-the-reward-each",
         };
+        let erg_cls = if erg_parts.len() > 1 && erg_choice != 5 { format!("{},in-{}-outputs", erg_cls, if erg_parts.len() == 2 { "2".to_string() } else { "3+".to_string() }) } else { erg_cls.to_string() };
         let wit = json!({"case_seed": case_seed, "net": format!("{:?}", net), "apply_height": apply_h, "coin_height": coin_h, "age": age, "prev_speed": prev_speed.to_string(), "difficulty": difficulty, "stated_difficulty": stated, "tip910": tip910,
             "corruption": label, "erg": erg.to_string(), "reference_reward": nominal.to_string(), "reference_expects_accept": expect.is_some(), "tx_hex": tx_hex(&tx), "result": format!("{:?}", res.as_ref().map_err(|e| e.message.clone()))});
         let agecls = if net == NetID::Mainnet { if age < 100 { "mainnet-age<100" } else { "mainnet-age>=100" } } else { "non-mainnet" };
@@ -394,6 +419,7 @@ pub fn run(p: &Params) -> Report {
     if p.only_case.is_none() {
         rep.require("accepted mints that raised the DOSC speed", p.n(50, 1000));
         rep.require("blocks with several mints", p.n(40, 800));
+        rep.require("mints with the ERG spread over several outputs", p.n(100, 2000));
     }
     rep
 }
